@@ -267,6 +267,15 @@ STAGES['C02']['thorough'].append(
 STAGES['C11']['quick'].append(
     ('signed-histories', 'MimeBuild', cfg(MAXP='2', MAXE='1', MAXA='1', ENCS='{"qp"}', SMIMES=KEYS2, CCS='<<"crlf", "utf8", "size900">>',
                                            OPSEQS='{<<a, b, c>> : a \\in {"WriteTo", "Reader", "FailSinkLate", "FailSinkMid", "SkipMw"}, b \\in {"Write", "File", "FailSinkLate", "UpdateReader", "SkipMw", "Sendmail"}, c \\in {"WriteTo", "TempFile", "SkipMw"}}')))
+# two middlewares of the caller; WriteToSkipMiddleware leaves the first out of ONE render: the renders before and after are unchanged
+STAGES['C11']['quick'].append(
+    ('middleware-pair-skip', 'MimeBuild', cfg(MAXP='2', MAXE='0', MAXA='1', ENCS='{"qp"}', MWS='{"pair"}', SMIMES='{[key |-> "", inter |-> FALSE], [key |-> "ecdsa", inter |-> FALSE]}',
+                                               CCS='<<"crlf", "utf8">>',
+                                               OPSEQS='{<<a, b, c>> : a \\in {"WriteTo", "SkipMw", "Reader"}, b \\in {"SkipMw", "File", "FailSinkMid"}, c \\in {"WriteTo", "SkipMw", "TempFile"}}')))
+STAGES['C11']['thorough'].append(
+    ('middleware-pair-skip', 'MimeBuild', cfg(MAXP='2', MAXE='1', MAXA='1', ENCS='{"qp", "b64"}', MWS='{"pair"}', SMIMES='{[key |-> "", inter |-> FALSE], [key |-> "ecdsa", inter |-> FALSE]}',
+                                               CCS='<<"crlf", "utf8">>',
+                                               OPSEQS='{<<a, b, c, d>> : a, c \\in {"WriteTo", "SkipMw", "Reader"}, b, d \\in {"SkipMw", "File", "FailSinkMid", "WriteTo"}}')))
 STAGES['C11']['thorough'].append(
     ('signed-histories', 'MimeBuild', cfg(MAXP='2', MAXE='1', MAXA='2', ENCS='{"qp", "b64"}', SMIMES=KEYS2, CCS='<<"crlf", "utf8", "size900">>',
                                            OPSEQS='{<<a, b, c, d>> : a, c \\in {"WriteTo", "Reader", "FailSinkLate", "FailSinkMid", "FailSink"}, b, d \\in {"Write", "File", "FailSinkLate", "UpdateReader", "TempFile", "SkipMw", "Sendmail"}}')))
